@@ -35,6 +35,7 @@ Writers: the `save.file` command, stream saving through the Save addon's hooks, 
 from __future__ import annotations
 
 import copy
+import datetime
 import errno
 import io
 import logging
@@ -125,10 +126,26 @@ class Env:
         self.sa = save.Save()
         self.tctx = taddons.context(self.sa)
         self.n = 0
+        self.vclock = 1_700_000_000.0  # virtual clock behind the addon's datetime.today()
+        env = self
+
+        class _FakeDatetime(datetime.datetime):
+            @classmethod
+            def today(cls):
+                return datetime.datetime.fromtimestamp(env.vclock)
+
+        self._real_datetime = save.datetime
+        save.datetime = _FakeDatetime
         self.cap = _Capture()
         lg = logging.getLogger("mitmproxy.addonmanager")
         lg.addHandler(self.cap)
         lg.propagate = False
+
+    def now(self):
+        return datetime.datetime.fromtimestamp(self.vclock)
+
+    def advance(self, seconds):
+        self.vclock += seconds
 
     def fire(self, hook, f):
         """Deliver a hook the way production does: through the addon manager, which logs and swallows addon exceptions
@@ -148,6 +165,7 @@ class Env:
             pass
         self.tctx.__exit__(None, None, None)
         logging.getLogger("mitmproxy.addonmanager").removeHandler(self.cap)
+        save.datetime = self._real_datetime
         shutil.rmtree(self.tmp, ignore_errors=True)
 
 
@@ -286,30 +304,50 @@ def write_stream(ctx, env, flows):
     at that moment, in order, complete.  -> (path of the largest file, its record states)"""
     r = ctx.rng
     sa, tctx = env.sa, env.tctx
-    paths = [env.path() for _ in range(3)]
+    timed = r.random() < 0.45  # save_stream_file is a strftime pattern; a virtual clock makes the formatted path roll over
+    paths = [env.path() for _ in range(3)]  # option values (fixed paths, or strftime patterns resolved against the virtual clock)
+    if timed:
+        paths = [p[: -len(".mitm")] + "-%d%H%M.mitm" for p in paths]
     files: dict = {}  # path -> model items
     cur = None  # path currently streamed to
+    spec = None  # (option value without '+', append) currently configured
     flt = None  # (expr, predicate)
     history: list = []
     inflight: list = []
 
-    def set_stream(path, append):
-        nonlocal cur
+    def resolve(pattern):
+        return env.now().strftime(pattern)
+
+    def open_model(path, append):
         if append:
             files.setdefault(path, [])
         else:
             files[path] = []  # "wb": an existing file is truncated
+
+    def roll():
+        """The addon re-evaluates the formatted path whenever it is about to write (and on option changes): when the clock
+        has moved it into another name, the old file is closed and the new one opened; later flows belong there."""
+        nonlocal cur
+        if spec is not None and resolve(spec[0]) != cur:
+            cur = resolve(spec[0])
+            open_model(cur, spec[1])
+            history.append(f"[clock: now {os.path.basename(cur)}]")
+
+    def set_stream(path, append):
+        nonlocal cur, spec
+        spec = (path, append)
+        cur = resolve(path)
+        open_model(cur, append)
         history.append(f"save_stream_file={'+' if append else ''}{os.path.basename(path)}")
         tctx.configure(sa, save_stream_file=("+" if append else "") + path)
-        cur = path
 
     def unset_stream():
-        nonlocal cur
+        nonlocal cur, spec
         if cur is not None:
             files[cur].append(("done", {f.id: snapshot(f) for f in inflight}))
         history.append("save_stream_file=None")
         tctx.configure(sa, save_stream_file=None)
-        cur = None
+        cur = spec = None
 
     def check_all(when):
         for p, items in files.items():
@@ -321,9 +359,9 @@ def write_stream(ctx, env, flows):
     x = r.random()
     if x < 0.15:
         pre = G.gen_flows(r, 1, size="small")
-        with open(paths[0], "wb") as fo:
+        with open(resolve(paths[0]), "wb") as fo:
             FlowWriter(fo).add(pre[0])
-        files[paths[0]] = [("fin", snapshot(pre[0]))]
+        files[resolve(paths[0])] = [("fin", snapshot(pre[0]))]
         set_stream(paths[0], True)
     elif x < 0.65:
         set_stream(paths[0], False)
@@ -337,19 +375,22 @@ def write_stream(ctx, env, flows):
     n_opt = 0
     while ok and (todo or running):
         x = r.random()
+        if timed and r.random() < 0.45:
+            env.advance(r.choice([1, 20, 61, 61, 125, 3600, 3725]))  # time passes between hooks; several rollovers per history
         if not plain and n_opt < 4 and x < 0.22:
             n_opt += 1
             y = r.random()
             if cur is None:
                 p = r.choice(paths)
-                set_stream(p, append=(p in files and r.random() < 0.6))
+                set_stream(p, append=(resolve(p) in files and r.random() < 0.6))
             elif y < 0.35:
                 unset_stream()
             elif y < 0.6:
-                p = r.choice([q for q in paths if q != cur])
-                set_stream(p, append=(p in files and r.random() < 0.6))  # re-target without switching off
+                p = r.choice([q for q in paths if q != spec[0]])
+                set_stream(p, append=(resolve(p) in files and r.random() < 0.6))  # re-target without switching off
             else:
                 flt = None if (flt is not None and r.random() < 0.4) else r.choice(FILTERS)
+                roll()  # a filter change re-evaluates the path as well
                 history.append(f"save_stream_filter={flt[0] if flt else None}")
                 tctx.configure(sa, save_stream_filter=flt[0] if flt else None)
             ok = check_all(history[-1])
@@ -371,6 +412,8 @@ def write_stream(ctx, env, flows):
             f.comment = f"finished:{h}"
             if f in inflight:
                 inflight.remove(f)
+            if cur is not None and not (G.kind_of(f) == "websocket" and h != "websocket_end"):
+                roll()
             if cur is not None and (flt is None or flt[1](f)):
                 files[cur].append(("fin", snapshot(f)))
         elif f not in inflight:
@@ -398,9 +441,14 @@ def write_stream(ctx, env, flows):
             continue
         if len(recs) >= len(states):
             best, states = p, recs
-    for p in paths:
+    if timed:
+        ctx.count("strftime_path_schedules")
+        ctx.seen("files_per_strftime_history", len(files))
+    for p in list(files):
         if p != best and os.path.exists(p):
             os.unlink(p)
+    if best not in files:
+        best = env.path()
     if not os.path.exists(best):
         open(best, "wb").close()
     return best, states
